@@ -1,7 +1,7 @@
 SPECIFICATION TSpec
 CONSTANTS
   Img = {1, 2, 3}
-  GKeys = {1, 2}
+  GKeys = {1, 2, 3, 4, 5, 6}
   MaxHeld = 3
   Bugs = {}
 POSTCONDITION LifeAccepted
